@@ -198,6 +198,7 @@ class Context:
         self.n_decisions = 0
         self.unknown_branches = 0
         self.generic_divisors = []
+        self.robust = []             # margin versions of exponent comparisons (model extraction only)
         self.notes = []
         self.expected_raise = None
         self.monitors = []
@@ -506,7 +507,13 @@ class Context:
             v, _ = self.check(nf, self.t_claim, tag='claim-' + name if DUMP_DIR else '')
             rec['verdict'] = v
             if v == 'sat':
-                _, m = self.full_model(nf)
+                m = None
+                if self.robust:
+                    vr, m = self.full_model(And.make([nf] + self.robust), self.t_branch)
+                    if vr != 'sat':
+                        m = None
+                if m is None:
+                    _, m = self.full_model(nf)
                 rec['model'] = self._input_values(m or {})
         self.claims.append(rec)
         return rec['verdict'] == 'unsat'
